@@ -28,16 +28,16 @@ func genStream(ch *Chooser) []byte {
 		sb.WriteString("\xEF\xBB\xBF")
 	}
 	mode := ch.Weighted([]int{6, 3, 1}, "stream mode") // 0 line-structured, 1 token soup, 2 mixed
-	n := 0
-	switch ch.Weighted([]int{8, 6, 2}, "stream length class") {
-	case 0:
-		n = ch.Range(0, 4, "stream items")
+	// items are preceded by a "more?" draw (not a count drawn up front), so that
+	// deleting an item's choices from a trace deletes exactly that item
+	num, den := 1, 2
+	switch ch.Weighted([]int{6, 6, 3}, "stream length class") {
 	case 1:
-		n = ch.Range(3, 10, "stream items")
-	default:
-		n = ch.Range(8, 24, "stream items")
+		num, den = 5, 6
+	case 2:
+		num, den = 15, 16
 	}
-	for i := 0; i < n; i++ {
+	for i := 0; i < 40 && ch.Chance(num, den, "more items"); i++ {
 		structured := mode == 0 || (mode == 2 && ch.Chance(1, 2, "structured?"))
 		if !structured {
 			sb.WriteString(streamTokens[ch.Intn(len(streamTokens), "token")])
